@@ -56,6 +56,9 @@ def lru_stems_from_parsed_url(parsed_url, suffix_aware=True):
         else:
             domain, suffix = split_result
 
+            # NOTE: an empty first label ('.co.uk') is a domain part too
+            has_domain = len(parsed_url.hostname.rstrip(".")) > len(suffix)
+
             # NOTE: split_suffix ignores the dots of a fully qualified name,
             # they are kept on the suffix so that no information is lost
             hostname = netloc[0]
@@ -63,7 +66,7 @@ def lru_stems_from_parsed_url(parsed_url, suffix_aware=True):
 
             lru.append("h:" + suffix)
 
-            if domain:
+            if domain or has_domain:
                 for element in reversed(domain.split(".")):
                     lru.append("h:" + element)
 
